@@ -145,6 +145,12 @@ func docxAlphabet() []docxKind {
 		docxHeading("h2", "", "Heading2", 0, 2, true),
 		docxHeading("hc", "heading-based-on", "MyHead", 0, 2, true),
 		docxHeading("ho", "", "", 3, 3, false),
+		// style chains that carry heading markers at two different levels: the style's own
+		// (nearest) marker is the authored level (ECMA-376 17.7.4.3: the derived style overrides)
+		docxHeading("hown", "heading-own-vs-base", "SectionHead", 0, 3, true),  // own outlineLvl 2, based on Heading1
+		docxHeading("hup", "heading-own-vs-base", "ChapterHead", 0, 1, true),   // own outlineLvl 0, based on Heading3
+		docxHeading("hchain", "heading-own-vs-base", "SubSection", 0, 3, true), // no marker -> SectionHead (3) -> Heading1 (1)
+		docxHeading("hloc", "heading-own-vs-base", "berschrift2", 0, 2, true),  // localized id, name "heading 2", outlineLvl 1, based on umbrella style named "Heading"
 		docxItem("l0", 1, 0),
 		docxItem("l1", 1, 1),
 		docxItem("l2", 1, 2),
@@ -194,6 +200,42 @@ func docxAlphabet() []docxKind {
 			xt := &xTable{3, 2, []xCell{{0, 0, 2, 1, pa}, {0, 1, 1, 1, pb}, {1, 1, 1, 1, pc}, {2, 0, 1, 1, pd}, {2, 1, 1, 1, pe}}}
 			return []docxw.Block{t}, []xBlock{{kind: kTable, tbl: xt, feat: "vmerge"}}
 		}},
+		{"tblk", []string{"block-merge"}, func(g *gen, o docxOpt) ([]docxw.Block, []xBlock) {
+			// row 1: [A 2x2 block: gridSpan 2 + vMerge restart][B]
+			// row 2: [continuation gridSpan 2][C]
+			// row 3: [D][E][F]
+			a, pa := cellP(g, 1)
+			a.Span, a.VMerge = 2, docxw.VMergeRestart
+			b, pb := cellP(g, 1)
+			cont := docxw.Cell{Span: 2, VMerge: docxw.VMergeContinue}
+			c, pc := cellP(g, 1)
+			d, pd := cellP(g, 1)
+			e, pe := cellP(g, 1)
+			f, pf := cellP(g, 1)
+			t := docxw.Table{Cols: 3, Rows: []docxw.Row{{Cells: []docxw.Cell{a, b}}, {Cells: []docxw.Cell{cont, c}}, {Cells: []docxw.Cell{d, e, f}}}}
+			xt := &xTable{3, 3, []xCell{{0, 0, 2, 2, pa}, {0, 2, 1, 1, pb}, {1, 2, 1, 1, pc}, {2, 0, 1, 1, pd}, {2, 1, 1, 1, pe}, {2, 2, 1, 1, pf}}}
+			return []docxw.Block{t}, []xBlock{{kind: kTable, tbl: xt, feat: "block-merge"}}
+		}},
+		{"tblk4", []string{"block-merge"}, func(g *gen, o docxOpt) ([]docxw.Block, []xBlock) {
+			// row 1: [X][A 2x2 block][B]
+			// row 2: [Y][continuation gridSpan 2][C]
+			// row 3: [D][E][F][G]
+			x, px := cellP(g, 1)
+			a, pa := cellP(g, 1)
+			a.Span, a.VMerge = 2, docxw.VMergeRestart
+			b, pb := cellP(g, 1)
+			y, py := cellP(g, 1)
+			cont := docxw.Cell{Span: 2, VMerge: docxw.VMergeContinue}
+			c, pc := cellP(g, 1)
+			d, pd := cellP(g, 1)
+			e, pe := cellP(g, 1)
+			f, pf := cellP(g, 1)
+			gg, pg := cellP(g, 1)
+			t := docxw.Table{Cols: 4, Rows: []docxw.Row{{Cells: []docxw.Cell{x, a, b}}, {Cells: []docxw.Cell{y, cont, c}}, {Cells: []docxw.Cell{d, e, f, gg}}}}
+			xt := &xTable{3, 4, []xCell{{0, 0, 1, 1, px}, {0, 1, 2, 2, pa}, {0, 3, 1, 1, pb}, {1, 0, 1, 1, py}, {1, 3, 1, 1, pc},
+				{2, 0, 1, 1, pd}, {2, 1, 1, 1, pe}, {2, 2, 1, 1, pf}, {2, 3, 1, 1, pg}}}
+			return []docxw.Block{t}, []xBlock{{kind: kTable, tbl: xt, feat: "block-merge"}}
+		}},
 		{"ttab", []string{"cell-tab"}, func(g *gen, o docxOpt) ([]docxw.Block, []xBlock) {
 			a, b := g.tok(), g.tok()
 			cell := docxw.Cell{Blocks: []docxw.Block{docxw.Para{Content: []docxw.Inline{rn(docxw.T(a)), rn(docxw.TabI(), docxw.T(b))}}}}
@@ -227,7 +269,15 @@ func docxAlphabet() []docxKind {
 // docxStyles is DefaultStyles plus the custom heading style "MyHead" (based on Heading2, no own
 // outline level: it inherits heading-ness and level 2 from its base, ECMA-376 17.7.4.3).
 func docxStyles() []docxw.Style {
-	return append(docxw.DefaultStyles(), docxw.Style{ID: "MyHead", Name: "Chapter Sub", BasedOn: "Heading2", Custom: true})
+	return append(docxw.DefaultStyles(),
+		docxw.Style{ID: "MyHead", Name: "Chapter Sub", BasedOn: "Heading2", Custom: true},
+		// two heading markers of different levels in one basedOn chain
+		docxw.Style{ID: "SectionHead", Name: "Section Head", BasedOn: "Heading1", Custom: true, Outline: 3},
+		docxw.Style{ID: "ChapterHead", Name: "Chapter Head", BasedOn: "Heading3", Custom: true, Outline: 1},
+		docxw.Style{ID: "SubSection", Name: "Sub Section", BasedOn: "SectionHead", Custom: true},
+		// localized Word: ids are translated, names are the built-in primary names; umbrella base style
+		docxw.Style{ID: "berschrift", Name: "Heading", BasedOn: "Normal"},
+		docxw.Style{ID: "berschrift2", Name: "heading 2", BasedOn: "berschrift", Outline: 2})
 }
 
 type docxCase struct {
